@@ -255,6 +255,33 @@ func corpusCases() []hp {
 		top := plainFV([]*hu.File{sectFile(0x91, 7, outer)}, 2048, 8)
 		out = append(out, b.finish("comp-in-comp", "go", top, nil))
 	}
+	// ---- round 2: driver code that takes the rare branches of the x86 branch filter, inside LZMAX86 sections whose
+	// input stream is LZMA(reference filter(children)) (dense.go); the first one unedited, the second with an insert
+	for i, c := range x86Cases(rand.New(rand.NewSource(0xC062)), 2, 0) {
+		name := []string{"x86-corrections", "x86-dense-insert"}[i]
+		c.Kind = "corpus-" + name + "/" + c.Args["cfg"]
+		out = append(out, hp{name, c})
+	}
+	{
+		// the two byte strings of the seeded defect c06-2 at 600 consecutive stream positions each (whether the
+		// correction step is taken depends on the position), separated by opcode-free filler
+		b := newBuilt()
+		var body []byte
+		for _, lit := range [][]byte{{0x48, 0xe8, 0x48, 0xc3, 0xe8, 0x80, 0x80, 0x00, 0x00, 0x01}, {0xe9, 0xe8, 0x00, 0xc3, 0xe9, 0x7f, 0xff, 0xff, 0x00}} {
+			for k := 0; k < 600; k++ {
+				body = append(body, lit...)
+				body = append(body, hardFiller...)
+				if k%2 == 1 {
+					body = append(body, 0x90)
+				}
+			}
+		}
+		kids := []*hu.Sec{{Kind: "sl", Type: 0x10, Body: body}, {Kind: "su", Name: []rune("Literal")}}
+		top := plainFV([]*hu.File{sectFile(0xA1, 7, b.refComp("go", kids))}, 4096, 8)
+		h := b.finish("x86-literal", "xz", top, nil)
+		h.c.Args["note"] = "literal " + payloadStats(kids)
+		out = append(out, h)
+	}
 	sort.Slice(out, func(i, j int) bool { return out[i].name < out[j].name })
 	return out
 }
